@@ -141,6 +141,7 @@ pub fn gen_straddle_plan(r: &mut Rng, ints_only: bool) -> Plan {
                 ret_err: None,
                 probe_cells: false,
                 pull_params: None,
+                pull_skip: 0,
             }),
         },
         Cmd {
@@ -155,6 +156,22 @@ pub fn gen_straddle_plan(r: &mut Rng, ints_only: bool) -> Plan {
         _ => vec![7, 0],
     };
     p
+}
+
+/// for C13: an error reported (finish_error) behind a giant row that the shim left open
+pub fn gen_c04_error_after_open_giant_row(r: &mut Rng) -> Plan {
+    for _ in 0..200 {
+        // job numbers 0..=4 are the text-row variants
+        let j = r.below(5);
+        let p = gen_c04(r, Tier::Quick, j);
+        let hit = p.cmds.iter().any(|c| {
+            matches!(&c.act, Act::Program(pg) if pg.units.iter().any(|u| matches!(u, Unit::Rows(ru) if matches!(ru.close, Close::FinishError { .. }))))
+        });
+        if hit {
+            return p;
+        }
+    }
+    gen_c04(r, Tier::Quick, 0)
 }
 
 pub fn gen_c04_plan(r: &mut Rng, tier: Tier, job: u64) -> Plan {
@@ -234,7 +251,15 @@ fn gen_c04(r: &mut Rng, tier: Tier, job: u64) -> Plan {
                         rows,
                         write_row: !open_last && r.coin(),
                         last_row_ended: !open_last && r.coin(),
-                        close: if r.chance(2, 3) { Close::Finish } else { Close::Drop },
+                        close: match r.below(if open_last { 4 } else { 3 }) {
+                            0 | 1 => Close::Finish,
+                            2 => Close::Drop,
+                            // the shim reports an error behind the open giant row
+                            _ => Close::FinishError {
+                                kind: gen_errkind(r),
+                                msg: gen_errmsg(r),
+                            },
+                        },
                         contra: None,
                         recover: None,
                     })],
@@ -242,6 +267,7 @@ fn gen_c04(r: &mut Rng, tier: Tier, job: u64) -> Plan {
                     ret_err: None,
                     probe_cells: false,
                     pull_params: None,
+                    pull_skip: 0,
                 }),
             });
         }
@@ -318,6 +344,7 @@ fn gen_c04(r: &mut Rng, tier: Tier, job: u64) -> Plan {
                     ret_err: None,
                     probe_cells: false,
                     pull_params: None,
+                    pull_skip: 0,
                 }),
             });
         }
@@ -340,6 +367,7 @@ fn gen_c04(r: &mut Rng, tier: Tier, job: u64) -> Plan {
                     ret_err: None,
                     probe_cells: false,
                     pull_params: None,
+                    pull_skip: 0,
                 }),
             });
         }
@@ -372,6 +400,7 @@ fn gen_c04(r: &mut Rng, tier: Tier, job: u64) -> Plan {
                     ret_err: None,
                     probe_cells: false,
                     pull_params: None,
+                    pull_skip: 0,
                 }),
             });
         }
@@ -466,6 +495,7 @@ fn gen_c04_tls(r: &mut Rng) -> Plan {
             ret_err: None,
             probe_cells: false,
             pull_params: None,
+            pull_skip: 0,
         };
         if binary {
             let id = 1 + cmds.len() as u32;
@@ -514,6 +544,7 @@ fn gen_c04_tls(r: &mut Rng) -> Plan {
         v13: r.coin(),
         seed: r.next(),
         chain: 0,
+        big_hello: false,
     });
     p.arrival = if r.coin() { Arrival::lockstep() } else { Arrival::upfront() };
     p.writes = WriteSched::all();
@@ -792,6 +823,7 @@ fn c15_plan(cells: Vec<(Cell, u8, bool)>, r: &mut Rng) -> Plan {
                 ret_err: None,
                 probe_cells: true,
                 pull_params: None,
+                pull_skip: 0,
             }),
         },
     ];
@@ -1143,6 +1175,7 @@ fn gen_c19_conv(r: &mut Rng) -> Plan {
             v13: r.coin(),
             seed: r.next(),
             chain: *r.pick(&[0u8, 0, 1, 2, 3]),
+            big_hello: r.chance(1, 5),
         });
         p.handshake.seq = 1;
         if let HsBody::V41 { caps, .. } = &mut p.handshake.body {
